@@ -69,7 +69,7 @@ Qed.
 
 Theorem default_idempotent : forall d j, mutate d (mutate d j) = mutate d j.
 Proof.
-  intros d j. unfold mutate. cbn [j_name j_tasks j_minavail j_policies j_volumes j_plugins j_queue j_sched j_maxretry j_prio j_nt j_rest].
+  intros d j. unfold mutate. cbn [j_name j_tasks j_minavail j_policies j_volumes j_plugins j_queue j_sched j_maxretry j_prio j_nt j_rest j_term].
   rewrite mutate_tasks_idem. f_equal.
   - destruct (j_minavail j =? 0) eqn:E.
     + destruct (sum32 _ =? 0) eqn:E2; [reflexivity|reflexivity].
@@ -272,8 +272,8 @@ Proof.
   set (t := mkTask 4 1 (Some 1) (mkTmpl 1 false 0) [] 3 None None).
   exists (mkOracles (fun _ _ => true) (fun _ _ _ => true) (fun _ => true) (fun _ => true)).
   exists [mkQueue 2 1 1 false].
-  exists (mkJob 7 [t] 1 [] [mkVol 1 0 (Some 1)] None 2 1 3 0 0 0).
-  exists (mkJob 7 [t] 1 [] [mkVol 1 5 (Some 1)] None 2 1 3 0 0 0).
+  exists (mkJob 7 [t] 1 [] [mkVol 1 0 (Some 1)] None 2 1 3 0 0 0 false).
+  exists (mkJob 7 [t] 1 [] [mkVol 1 5 (Some 1)] None 2 1 3 0 0 0 true).
   split; [vm_compute; reflexivity|]. split; [vm_compute; reflexivity|]. split; [reflexivity|].
   intros [V _]. inversion V; subst. destruct H1 as [_ [(c & _ & E)|(E & _)]]; simpl in E; discriminate.
 Qed.
@@ -291,7 +291,7 @@ Fixpoint prefill_tasks (i : nat) (ts : list task) : list task :=
 Definition prefill (j : job) : job :=
   mkJob (j_name j) (prefill_tasks 0 (j_tasks j)) (j_minavail j) (j_policies j) (j_volumes j)
         (j_plugins j) (if j_queue j =? 0 then Q_DEFAULT else j_queue j) (j_sched j) (j_maxretry j)
-        (j_prio j) (j_nt j) (j_rest j).
+        (j_prio j) (j_nt j) (j_rest j) (j_term j).
 
 (* The unconditional statement "prefill j admitted -> mutate j admitted" is
    refuted: with minAvailable left unset and minPartitions > totalPartitions the
@@ -304,7 +304,7 @@ Proof.
   exists (mkOracles (fun _ _ => true) (fun _ _ _ => true) (fun _ => true) (fun _ => true)).
   exists [mkQueue 2 1 1 false]. exists 1.
   exists (mkJob 7 [mkTask 4 4 None (mkTmpl 1 false 0) [] 0 None (Some (mkPart 2 2 3 0))]
-                0 [] [] None 0 0 0 0 0 0).
+                0 [] [] None 0 0 0 0 0 0 false).
   vm_compute. split; reflexivity.
 Qed.
 
@@ -567,7 +567,7 @@ Qed.
 (* a three-step history with a refused update in the middle (audit W5) *)
 Example history_with_refusal :
   let t r m := mkTask 4 r (Some m) (mkTmpl 1 false 0) [] 3 None None in
-  let jb r m ma pr q := mkJob 7 [t r m] ma [] [] None q 1 3 pr 0 0 in
+  let jb r m ma pr q := mkJob 7 [t r m] ma [] [] None q 1 3 pr 0 0 true in
   let j0 := jb 2 1 1 0 2 in
   let us := [jb 5 3 4 1 2; jb 5 3 4 1 5; jb 3 3 3 2 2] in
   validate_create tq_oracles [mkQueue 1 1 0 false; mkQueue 2 1 1 false] j0 = true /\
@@ -575,3 +575,27 @@ Example history_with_refusal :
   apply_updates j0 us = jb 3 3 3 2 2 /\
   Forall (fun u => j_name u = j_name j0) us.
 Proof. vm_compute. repeat split; try reflexivity. repeat constructor. Qed.
+
+(* ---------- Terminating jobs (metadata.deletionTimestamp set) ----------
+   AdmitJobs' Update case decodes both objects and runs validateJobUpdate whatever the
+   deletionTimestamp of either object is; the model therefore never reads j_term, and every
+   theorem above is quantified over terminating objects as well.  Explicitly: *)
+Definition set_term (b : bool) (j : job) : job :=
+  mkJob (j_name j) (j_tasks j) (j_minavail j) (j_policies j) (j_volumes j) (j_plugins j) (j_queue j)
+        (j_sched j) (j_maxretry j) (j_prio j) (j_nt j) (j_rest j) b.
+Lemma validate_update_ignores_term a b old new :
+  validate_update (set_term a old) (set_term b new) = validate_update old new.
+Proof. reflexivity. Qed.
+
+(* a forbidden change (queue, an added dependsOn cycle, minAvailable above replicas) on a
+   Terminating job is refused like on any other job, in every combination of the flag *)
+Lemma update_on_terminating_job_still_checked :
+  let t n r m d := mkTask n r (Some m) (mkTmpl 1 false 0) [] 3 d None in
+  let jb ts ma q tm := mkJob 7 ts ma [] [] None q 1 3 0 0 0 tm in
+  let old tm := jb [t 4 2 1 None; t 5 1 1 None] 2 2 tm in
+  forall a b,
+    validate_update (old a) (jb [t 4 2 1 None; t 5 1 1 None] 2 5 b) = false /\
+    validate_update (old a) (jb [t 4 2 1 (Some ([5], 0)); t 5 1 1 (Some ([4], 0))] 2 2 b) = false /\
+    validate_update (old a) (jb [t 4 2 3 None; t 5 1 1 None] 2 2 b) = false /\
+    validate_update (old a) (jb [t 4 3 2 None; t 5 1 1 None] 3 2 b) = true.
+Proof. intros t jb old a b. destruct a, b; vm_compute; repeat split; reflexivity. Qed.
